@@ -10,6 +10,77 @@ use pairing_plus::bls12_381::{Fq, Fq2, Fr};
 use pairing_plus::hash_to_field::{hash_to_field, BaseFromRO, ExpandMsg, ExpandMsgXmd, ExpandMsgXof, FromRO};
 use serde_json::json;
 
+/// a caller-supplied hash with unusual sizes (16-byte output, 24-byte block): expand_message_xmd must work for any
+/// Merkle-Damgard style hash, not only for the SHA-2 sizes.  Not cryptographic; deterministic and position dependent.
+#[derive(Clone)]
+pub struct Toy16 {
+    a: u64,
+    b: u64,
+    n: u64,
+}
+impl Default for Toy16 {
+    fn default() -> Self {
+        Toy16 { a: 0x243f6a8885a308d3, b: 0x13198a2e03707344, n: 0 }
+    }
+}
+impl digest::Input for Toy16 {
+    fn input<B: AsRef<[u8]>>(&mut self, data: B) {
+        for x in data.as_ref() {
+            self.n = self.n.wrapping_add(1);
+            self.a = (self.a ^ (*x as u64) ^ self.n).wrapping_mul(0x100000001b3).rotate_left(13);
+            self.b = (self.b.wrapping_add(self.a) ^ ((*x as u64) << 17)).wrapping_mul(0x9E3779B97F4A7C15).rotate_left(29);
+        }
+    }
+}
+impl digest::FixedOutput for Toy16 {
+    type OutputSize = digest::generic_array::typenum::U16;
+    fn fixed_result(self) -> GenericArray<u8, Self::OutputSize> {
+        let mut out = GenericArray::<u8, Self::OutputSize>::default();
+        let fa = (self.a ^ self.n).wrapping_mul(0xff51afd7ed558ccd) ^ self.b.rotate_left(7);
+        let fb = (self.b ^ fa).wrapping_mul(0xc4ceb9fe1a85ec53) ^ self.a.rotate_left(31);
+        out[..8].copy_from_slice(&fa.to_be_bytes());
+        out[8..].copy_from_slice(&fb.to_be_bytes());
+        out
+    }
+}
+impl digest::BlockInput for Toy16 {
+    type BlockSize = digest::generic_array::typenum::U24;
+}
+impl digest::Reset for Toy16 {
+    fn reset(&mut self) {
+        *self = Toy16::default();
+    }
+}
+fn toy16(parts: &[&[u8]]) -> Vec<u8> {
+    use digest::{FixedOutput, Input};
+    let mut h = Toy16::default();
+    for p in parts {
+        h.input(p);
+    }
+    h.fixed_result().to_vec()
+}
+/// RFC 9380 5.3.1 with the toy hash (b = 16, s = 24)
+fn ref_xmd_toy16(msg: &[u8], dst: &[u8], len_in_bytes: usize) -> Option<Vec<u8>> {
+    let (b, s) = (16usize, 24usize);
+    let ell = (len_in_bytes + b - 1) / b;
+    if ell > 255 || len_in_bytes > 65535 || dst.len() > 255 {
+        return None;
+    }
+    let dst_prime: Vec<u8> = [dst, &[dst.len() as u8]].concat();
+    let z_pad = vec![0u8; s];
+    let lib = [(len_in_bytes >> 8) as u8, (len_in_bytes & 0xff) as u8];
+    let b0 = toy16(&[&z_pad, msg, &lib, &[0u8], &dst_prime]);
+    let mut prev = toy16(&[&b0, &[1u8], &dst_prime]);
+    let mut out = prev.clone();
+    for i in 2..=ell {
+        let x: Vec<u8> = b0.iter().zip(&prev).map(|(p, q)| p ^ q).collect();
+        prev = toy16(&[&x, &[i as u8], &dst_prime]);
+        out.extend_from_slice(&prev);
+    }
+    out.truncate(len_in_bytes);
+    Some(out)
+}
+
 pub const EXPANDERS: [Expander; 4] = [Expander::XmdSha256, Expander::XmdSha512, Expander::XofShake128, Expander::XofShake256];
 
 pub fn lib_expand(h: Expander, msg: &[u8], dst: &[u8], len: usize) -> Vec<u8> {
@@ -127,6 +198,38 @@ pub fn run(ctx: &Ctx) -> (&'static str, &'static str) {
             }
         },
     );
+    // the same through a caller-supplied hash with other sizes (16-byte output, 24-byte block): limit at 255*16 = 4080
+    {
+        let tl: Vec<usize> = vec![0, 1, 15, 16, 17, 31, 32, 33, 48, 255, 256, 4079, 4080, 4081, 8160];
+        let rad = [tl.len() as u64, dl.len() as u64, ml.len() as u64];
+        ctx.sweep(
+            "expand_message.toy_hash_16_24",
+            crate::infra::space(&rad),
+            |i| {
+                let d = unrank(i, &rad);
+                json!({"hash": "toy 16-byte output / 24-byte block", "msg_len": ml[d[2]], "dst_len": dl[d[1]], "len_in_bytes": tl[d[0]]})
+            },
+            |i| {
+                let d = unrank(i, &rad);
+                let msg = fill(ml[d[2]], 0);
+                let dst = rfc_dst(dl[d[1]], 0);
+                let len = tl[d[0]];
+                let want = ref_xmd_toy16(&msg, &dst, len);
+                let got = guard(|| ExpandMsgXmd::<Toy16>::expand_message(&msg, &dst, len));
+                match (want, got) {
+                    (None, Err(_)) => Ok("abort beyond 255 blocks"),
+                    (None, Ok(_)) => Err(Fail::new(format!("expand_message_xmd (16-byte hash) returned bytes for {} bytes = more than 255 blocks", len))),
+                    (Some(_), Err(m)) => Err(Fail::new(format!("expand_message_xmd (16-byte hash) aborted inside the limit: {}", m))),
+                    (Some(w), Ok(g)) => {
+                        if w != g {
+                            return Err(Fail::new("expand_message_xmd differs from RFC 9380 section 5.3.1 for a hash with 16-byte output and 24-byte block"));
+                        }
+                        Ok(if len == 0 { "" } else { "output" })
+                    }
+                }
+            },
+        );
+    }
     // hash_to_field: blocks are consecutive, big-endian, reduced; Fq2 real part first
     let counts: Vec<usize> = vec![0, 1, 2, 3, 5, 17];
     let msgs: Vec<usize> = if quick { vec![0, 3, 64] } else { vec![0, 1, 3, 55, 64, 65, 137, 1000] };
